@@ -40,6 +40,11 @@ def check_alternation(run, A):
         n += 1
         run.check(L.range_ok, 'R-LOOP', f'{short}: iterates over range(iterations)', fn.loc(L.loop.node), '',
                   'the EM loop does not run exactly `iterations` times (range(iterations) of the parameter)', construct=f'R-LOOP::{fn.qual}::range')
+        g_ = A.graphs.get(fn)
+        exits = [e for e in g_.events if e.kind == 'break' and L.loop in (e.loops or ())] if g_.events and hasattr(g_.events[0], 'loops') else \
+            [e for e in g_.events if e.kind == 'break']
+        run.check(not exits, 'R-LOOP', f'{short}: the EM loop has no early exit', fn.loc(exits[0].node) if exits else fn.loc(L.loop.node), '',
+                  'a `break` ends the EM loop before `iterations` alternations were made (a fit of n iterations is no longer n alternations)', construct=f'R-LOOP::{fn.qual}::early-exit')
         run.check(not any(p[0] == 'return' for p in L.problems), 'R-LOOP', f'{short}: returns the last M-step result', fn.loc(), '',
                   'the function does not return the loop-carried model on every path', construct=f'R-LOOP::{fn.qual}::return')
         ok_m = not any(p[0] == 'm-step' for p in L.problems) and len(L.m_calls_in_loop) == 1
